@@ -6,8 +6,10 @@ CONSTANTS
   Fractions <- FracsAll
   Factors = {2, 5}
   Moves <- MovesAll
+  BothMoves <- BothAll
+  Energies = {0, 1, 2, 3, 4}
   OffCone <- Angles
-  MaxLevel = 6
+  MaxLevel = 5
 CONSTRAINT LevelBound
 INVARIANT Consistent
 CHECK_DEADLOCK FALSE
